@@ -179,6 +179,12 @@ func chunkings(small bool) []chunking {
 }
 
 func family(role string, seq []fclass, fam string, seed int64, thorough bool) mc.Scenario {
+	return familyPart(role, seq, fam, seed, thorough, 0, 1)
+}
+
+// familyPart runs the cases ci with ci % parts == part of a family (large
+// families are split so that they shard over the processes).
+func familyPart(role string, seq []fclass, fam string, seed int64, thorough bool, part, parts int) mc.Scenario {
 	var names []string
 	size := 0
 	for _, f := range seq {
@@ -186,8 +192,14 @@ func family(role string, seq []fclass, fam string, seed int64, thorough bool) mc
 		size += 21 + f.pay + f.pad
 	}
 	name := fmt.Sprintf("%s/%v/%s", role, names, fam)
+	scenName := name
+	if parts > 1 {
+		scenName = fmt.Sprintf("%s/part%02d-of-%d", name, part, parts)
+	}
+	var cached []tamper
+	var cachedFrames []byte
 	return mc.Scenario{
-		Name:   name,
+		Name:   scenName,
 		Params: map[string]any{"role": role, "frames": names, "family": fam},
 		Weight: 1 + size/50,
 		Run: func(c *mc.Ctx) {
@@ -201,7 +213,11 @@ func family(role string, seq []fclass, fam string, seed int64, thorough bool) mc
 			tail := [][]byte{o4h.Pattern('y', 0, 5), o4h.Pattern('z', 0, 9)} // two further valid frames
 			nCases := -1
 			outcomes := map[string]int{}
-			for ci := 0; nCases < 0 || ci < nCases; ci++ {
+			for ci := part; nCases < 0 || ci < nCases; ci += parts {
+				if c.Expired() {
+					c.Incomplete(fmt.Sprintf("%s: budget expired at case %d of %d", scenName, ci, nCases))
+					break
+				}
 				for _, ch := range chunkings(size <= 300) {
 					realStream := rnd.New(seed, "c05-real-"+name)
 					rnd.Install(realStream)
@@ -245,7 +261,12 @@ func family(role string, seq []fclass, fam string, seed int64, thorough bool) mc
 							for _, p := range tail {
 								frames = append(frames, rs.Tx.Seal(ref.Packet(ref.PktPayload, p, 0)))
 							}
-							cases := buildCases(frames, fam, thorough, caseRnd)
+							// the ciphertext is the same in every run of the family
+							// (same scripted randomness): build the case list once
+							if joined := bytes.Join(frames, nil); cached == nil || !bytes.Equal(joined, cachedFrames) {
+								cached, cachedFrames = buildCases(frames, fam, thorough, caseRnd), joined
+							}
+							cases := cached
 							nCases = len(cases)
 							if ci >= nCases {
 								attackerWire.Close()
@@ -350,7 +371,13 @@ func main() {
 		seqsOps := [][]fclass{{fOne, fOne, fOne, fOne}, {fOne, fPad, fMid}, {fMid, fFull, fOne}, {fFull, fFull}}
 		for _, role := range []string{"client", "server"} {
 			for _, sq := range seqsBits {
-				emit(family(role, sq, "bitflip", cfg.Seed, cfg.Thorough()))
+				if cfg.Thorough() && len(sq) == 1 && sq[0].pay+sq[0].pad > 300 {
+					for k := 0; k < 8; k++ {
+						emit(familyPart(role, sq, "bitflip", cfg.Seed, true, k, 8))
+					}
+				} else {
+					emit(family(role, sq, "bitflip", cfg.Seed, cfg.Thorough()))
+				}
 				emit(family(role, sq, "truncate", cfg.Seed, cfg.Thorough()))
 			}
 			for _, sq := range seqsOps {
@@ -358,7 +385,9 @@ func main() {
 					emit(family(role, sq, fam, cfg.Seed, cfg.Thorough()))
 				}
 				if cfg.Thorough() {
-					emit(family(role, sq, "bitflip", cfg.Seed, true))
+					for k := 0; k < 8; k++ {
+						emit(familyPart(role, sq, "bitflip", cfg.Seed, true, k, 8))
+					}
 				}
 			}
 		}
